@@ -45,16 +45,8 @@ theorem wNear_documented : Documented wNear := by
 /-- the constructor path: standard type (v2 < vstar - 1e-4), neither special-singularity test fires:
 |denom2| = 1.2793 and |denom3| = 5e-4 are both > 1e-4 -/
 theorem wNear_path : SedovInit.c10 wNear ∧ ¬ SedovInit.c9 wNear ∧ ¬ SedovInit.c12 wNear := by
-  refine ⟨?_, ?_, ?_⟩
-  · simp only [epv_cond]
-    show (4:ℝ) / ((3 + 2 - 3601/2000) * (7/5 + 1)) < 2 / ((7/5 - 1) * 3 + 2) - 1/10000
-    norm_num
-  · simp only [epv_cond]
-    show ¬ |2 * ((7:ℝ)/5 - 1) + 3 - 7/5 * (3601/2000)| ≤ 1/10000
-    rw [abs_of_pos (by norm_num)]; norm_num
-  · simp only [epv_cond]
-    show ¬ |(3:ℝ) * (2 - 7/5) - 3601/2000| ≤ 1/10000
-    rw [abs_of_neg (by norm_num)]; norm_num
+  -- substitute the witness and evaluate, whatever form the Python gives the tests (no literal `show`)
+  refine ⟨?_, ?_, ?_⟩ <;> (simp only [epv_cond, wNear, abs_le]; norm_num)
 
 theorem wNearC_accepted : AcceptedC wNearC := by
   refine ⟨Or.inr (Or.inr rfl), ?_, ?_, ?_, ?_, ?_⟩ <;> norm_num [wNearC]
